@@ -805,7 +805,9 @@ def json_cli_fixed(args) -> List[Tuple[str, Dict[str, Any], str, Any]]:
             "null_budgets": {"scheduler": {"budgets": None}}, "null_hybrid": {"t2": {"hybrid": None}},
             # user strings that contain line-boundary characters other than \n and end up inside a message
             "ls_key": {"t2": {"k_retrieval": 0, "bad\u2028key": 1}}, "vt_key": {"un\x0bknown": 1, "t1": {"iter_cap\u0085": 3}},
-            "ps_cooldown": {"t4": {"cooldowns": {"Edit\u2029Graph": -1}, "novelty_cap_per_node": -1.0}}}
+            "ps_cooldown": {"t4": {"cooldowns": {"Edit\u2029Graph": -1}, "novelty_cap_per_node": -1.0}},
+            # YAML-only leaf types in a free-form section: a date value, a date key
+            "yaml_date": {"flags": {"when": __import__("datetime").date(2024, 1, 1)}}, "yaml_date_key": {"flags": {__import__("datetime").date(2024, 1, 1): 1}}}
     d = os.path.join(wd, f"jsoncli_{os.getpid()}")
     os.makedirs(d, exist_ok=True)
     env = dict(os.environ)
@@ -860,6 +862,75 @@ def json_cli_fixed(args) -> List[Tuple[str, Dict[str, Any], str, Any]]:
                 fails.append(("SameVerdictAllApis", {"cause": "cli-json-messages", "variant": variant.split(" FILE")[0]},
                               f"[{name}] `{variant}` on {doc}: the API's messages {missing[:2]} do not appear in the output {both.strip()[:200]!r}", case))
     shutil.rmtree(d, ignore_errors=True)
+    return fails
+
+
+def alias_and_purity_fixed(args) -> List[Tuple[str, Dict[str, Any], str, Any]]:
+    """(a) a cache TTL has two spellings (ttl_s / ttl_sec); whichever wins, an accepted configuration carries no spelling
+    whose value is outside the documented range or of the wrong type, and a value that cannot be read as a number is not
+    silently replaced by the default; a number too large for a float is out of range, not 0.
+    (b) purity under caller mutation: what a caller does to a returned configuration (append to its lists, add keys to its
+    mappings) changes neither the result of validating the same document again nor the document itself."""
+    from configs.validate import validate_config
+    fails = []
+
+    def run_(doc):
+        try:
+            return "accept", validate_config(copy.deepcopy(doc))
+        except Exception as e:      # noqa: BLE001
+            return ("reject" if type(e).__name__ in ("ConfigError", "ValueError") else "raise:" + type(e).__name__), str(e)
+    bads = [-5, "soon", [], "5m", {"x": 1}]
+    for sec in ("t1", "t2", "t4"):
+        for win, lose in (("ttl_s", "ttl_sec"), ("ttl_sec", "ttl_s")):
+            for bad in bads:
+                for doc in ({sec: {"cache": {win: 70, lose: bad}}}, {sec: {"cache": {lose: bad}}}):
+                    v, out = run_(doc)
+                    case = {"v": {}, "doc": doc}
+                    if v.startswith("raise"):
+                        fails.append(("TotalTyped", {"cause": "ttl-alias-raised"}, f"validate_config({doc!r}) raised {v[6:]}: {out[:120]}", case))
+                    elif v == "accept":
+                        c_ = (out.get(sec) or {}).get("cache") or {}
+                        for k_ in ("ttl_s", "ttl_sec"):
+                            if k_ in c_ and not (isinstance(c_[k_], int) and not isinstance(c_[k_], bool) and c_[k_] >= 0):
+                                fails.append(("AcceptedWithinRanges", {"cause": "ttl-alias-out-of-range", "section": sec},
+                                              f"validate_config({doc!r}) is accepted and the normalised {sec}.cache carries {k_}={c_[k_]!r}", case))
+                        if len(doc[sec]["cache"]) == 1 and isinstance(bad, str):
+                            fails.append(("AcceptedWithinRanges", {"cause": "ttl-unreadable-accepted", "section": sec},
+                                          f"validate_config({doc!r}) is accepted ({ {k_: c_.get(k_) for k_ in ('ttl_s', 'ttl_sec')} }): a value that is not a number was replaced silently", case))
+    for doc in ({"t2": {"sim_threshold": 10 ** 400}}, {"t4": {"delta_norm_cap_l2": -10 ** 400}}):
+        v, out = run_(doc)
+        if v != "reject":
+            fails.append(("AcceptedWithinRanges" if v == "accept" else "TotalTyped", {"cause": "huge-number"},
+                          f"validate_config({ {k: {kk: '10**400' for kk in vv} for k, vv in doc.items()} }) -> {v} ({str(out)[:80]})", {"v": {}, "doc": {}}))
+
+    def scribble(x):
+        if isinstance(x, dict):
+            for v_ in list(x.values()):
+                scribble(v_)
+            x["__verif_scribble__"] = 1
+        elif isinstance(x, list):
+            for v_ in x:
+                scribble(v_)
+            x.append("__verif_scribble__")
+    for doc in ({}, {"perf": {}}, {"t4": {"cache": {"namespaces": ["t2:semantic"]}}}, {"flags": {"x": [1], "y": {"z": 2}}},
+                {"t2": {"tiers": ["exact_semantic"], "quality": {"enabled": True}}}, {"t1": {"edge_type_mult": {"supports": 1.0}}}):
+        before = copy.deepcopy(doc)
+        d_ = copy.deepcopy(doc)
+        try:
+            r1 = validate_config(d_)
+            snap = copy.deepcopy(r1)
+            scribble(r1)
+            if d_ != before:
+                fails.append(("InputNotMutated", {"cause": "output-shares-input"}, f"a caller's edits of the configuration returned for {before!r} reach the document that was validated: {d_!r}",
+                              {"v": {}, "doc": before}))
+            r2 = validate_config(copy.deepcopy(before))
+        except Exception as e:      # noqa: BLE001
+            fails.append(("Deterministic", {"cause": "output-shares-defaults"}, f"after a caller edited the configuration returned for {before!r}, validating the same document again "
+                                                                                  f"raises {type(e).__name__}: {str(e)[:160]}", {"v": {}, "doc": before}))
+            continue
+        if r2 != snap:
+            fails.append(("Deterministic", {"cause": "output-shares-defaults"}, f"after a caller edited the configuration returned for {before!r}, validating the same document again gives "
+                                                                                  f"another result", {"v": {}, "doc": before}))
     return fails
 
 
@@ -988,6 +1059,7 @@ def check(run) -> None:
     with ThreadPoolExecutor(8) as ex:
         rc_outs = list(ex.map(real_cli, [(c, wd, 5 + i % 3) for i, c in enumerate(sel)]))
     rc_outs.append(json_cli_fixed((wd, 5)))
+    rc_outs.append(alias_and_purity_fixed((wd, 5)))
     nreal = 0
     for fl in rc_outs:
         nreal += 1
